@@ -348,7 +348,7 @@ func genC01Real(tier string, seed int64) {
 	// (c) random DAGs over unary/binary operators
 	nDag := 40
 	if tier == "thorough" {
-		nDag = 1500
+		nDag = 4000
 	}
 	un := []string{"Abs", "Relu", "Tanh", "Sigmoid", "Sin", "Cos", "Atan", "Sinh"}
 	bin := []string{"Add", "Mul", "Sub", "Div"}
